@@ -53,7 +53,6 @@ import (
 	"reflect"
 	"runtime"
 	"slices"
-	"sync/atomic"
 	_ "unsafe"
 
 	"golang.org/x/tools/go/ssa"
@@ -287,12 +286,13 @@ func visitInstr(fr *frame, instr ssa.Instruction) continuation {
 		}
 
 	case *ssa.Go:
+		// A goroutine of the program under test is run to completion at its
+		// spawn point (one legal schedule). Its writes are recorded as a
+		// concurrent segment: a write by another segment that is live at the
+		// same time (until the next WaitGroup.Wait) to the same cell or map is a
+		// candidate data race (segments.go).
 		fn, args := prepareCall(fr, &instr.Call)
-		atomic.AddInt32(&fr.i.goroutines, 1)
-		go func() {
-			call(fr.i, nil, instr.Pos(), fn, args)
-			atomic.AddInt32(&fr.i.goroutines, -1)
-		}()
+		runSegment(func() { call(fr.i, fr, instr.Pos(), fn, args) })
 
 	case *ssa.MakeChan:
 		fr.env[fr.info.idx[instr]] = make(chan value, asInt64(fr.get(instr.Size)))
